@@ -1010,6 +1010,77 @@ func (a *Audit) ifaceTainted(v ssa.Value, at *ssa.BasicBlock, depth int) bool {
 	case *ssa.Index:
 		// element of a variadic parameter slice
 		return false
+	case *ssa.Call:
+		// the only result of a function of the module that has no error to report "none" with: nil is an answer
+		if x.Call.Signature().Results().Len() != 1 {
+			return false
+		}
+		var callees []*ssa.Function
+		if sc := x.Call.StaticCallee(); sc != nil {
+			callees = []*ssa.Function{sc}
+		} else if x.Call.IsInvoke() {
+			callees = a.w.dynCallees(x)
+		}
+		for _, g := range callees {
+			if a.mayReturnNilIface(g, map[*ssa.Function]bool{}, 0) {
+				return true
+			}
+		}
+	}
+	return false
+}
+
+// mayReturnNilIface: a function of the module whose only result is an interface hands back the nil constant on
+// some return (itself or through a function of the module whose result it returns).
+func (a *Audit) mayReturnNilIface(g *ssa.Function, seen map[*ssa.Function]bool, depth int) bool {
+	if g == nil || seen[g] || depth > 4 || len(g.Blocks) == 0 || !inModule(g) || g.Signature.Results().Len() != 1 {
+		return false
+	}
+	if _, isIface := g.Signature.Results().At(0).Type().Underlying().(*types.Interface); !isIface {
+		return false
+	}
+	seen[g] = true
+	for _, b := range g.Blocks {
+		if len(b.Instrs) == 0 || b == g.Recover {
+			continue
+		}
+		ret, ok := b.Instrs[len(b.Instrs)-1].(*ssa.Return)
+		if !ok || len(ret.Results) != 1 {
+			continue
+		}
+		var walk func(v ssa.Value, d int) bool
+		walk = func(v ssa.Value, d int) bool {
+			if d > 6 {
+				return false
+			}
+			switch y := v.(type) {
+			case *ssa.Const:
+				return y.IsNil()
+			case *ssa.Phi:
+				for _, op := range y.Edges {
+					if walk(op, d+1) {
+						return true
+					}
+				}
+			case *ssa.ChangeInterface:
+				return walk(y.X, d+1)
+			case *ssa.Call:
+				if sc := y.Call.StaticCallee(); sc != nil {
+					return a.mayReturnNilIface(sc, seen, depth+1)
+				}
+				if y.Call.IsInvoke() {
+					for _, d2 := range a.w.dynCallees(y) {
+						if a.mayReturnNilIface(d2, seen, depth+1) {
+							return true
+						}
+					}
+				}
+			}
+			return false
+		}
+		if walk(resolveRet(ret.Results[0]), 0) {
+			return true
+		}
 	}
 	return false
 }
